@@ -7,6 +7,7 @@ Two generator streams:
     only the implementation and the oracle run; failures are third-party semantics and are
     mapped to known findings by predicates on the offending hierarchical line.
 """
+import atexit
 import json
 import os
 import re
@@ -521,6 +522,7 @@ def describe(case):
 
 def buckets(case, ans):
     out = ["stream:" + ("plain(model+oracle)" if case["plain"] else "outside(oracle only)"),
+           ("plain-syntax:" if case["plain"] else "outside-syntax:") + (case["syntax"] if case["syntax"] in SYNTAXES else "<invalid>"),
            "answer:" + (ans.split("|")[0] if ans.startswith("ok") else ans),
            "syntax:" + (case["syntax"] if case["syntax"] in SYNTAXES else "<invalid>"),
            "form-old:" + case["oform"], "form-new:" + case["nform"]]
@@ -560,9 +562,15 @@ def _arg(form, lines, path):
     if form == "tuple":
         return tuple(lines)
     if form == "path":
-        os.makedirs(SCRATCH, exist_ok=True)
-        with open(path, "w", newline="") as fh:
-            fh.write(file_content(lines))
+        for attempt in range(5):        # another check may be removing the empty scratch dir right now
+            try:
+                os.makedirs(SCRATCH, exist_ok=True)
+                with open(path, "w", newline="") as fh:
+                    fh.write(file_content(lines))
+                break
+            except FileNotFoundError:
+                if attempt == 4:
+                    raise
         return path
     s = str_form(form, lines)
     assert not (len(s.splitlines()) == 1 and os.path.isfile(s)), "string form names an existing file"
@@ -607,10 +615,17 @@ def impl(case):
                 os.remove(p)
             except OSError:
                 pass
-        try:
-            os.rmdir(SCRATCH)
-        except OSError:
-            pass
+
+
+def _cleanup():
+    """the scratch directory is removed when the check ends (files are removed case by case)"""
+    try:
+        os.rmdir(SCRATCH)
+    except OSError:
+        pass
+
+
+atexit.register(_cleanup)
 
 
 def compare(case, impl_ans, model_ans):
